@@ -213,7 +213,7 @@ package leveldb
 //@   loop 1
 //@     invariant [C10:acks-so-far] 0 <= i && i <= merged && sent(db.writeAckC) == old(sent(db.writeAckC)) + i
 //@     invariant [C10:nothing-else] sentv(db.writeMergedC, false) == old(sentv(db.writeMergedC, false)) && sentv(db.writeMergedC, true) == old(sentv(db.writeMergedC, true))
-//@   ensures [released-or-handed-over] held(db.writeLockC) == old(held(db.writeLockC)) - 1
+//@   ensures [C09,C10:released-or-handed-over] held(db.writeLockC) == old(held(db.writeLockC)) - 1
 //@   ensures [C10:one-ack-per-merged-writer] sent(db.writeAckC) == old(sent(db.writeAckC)) + merged
 //@   ensures [C10:handoff-iff-overflow] sentv(db.writeMergedC, false) == old(sentv(db.writeMergedC, false)) + (overflow ? 1 : 0)
 //@   ensures [C10:no-merged-reply-here] sentv(db.writeMergedC, true) == old(sentv(db.writeMergedC, true))
@@ -227,7 +227,7 @@ package leveldb
 //@     invariant [C10:replies-so-far] sentv(db.writeMergedC, true) == old(sentv(db.writeMergedC, true)) + merged && sentv(db.writeMergedC, false) == old(sentv(db.writeMergedC, false))
 //@     invariant [C10:no-acks-yet] sent(db.writeAckC) == old(sent(db.writeAckC))
 //@     invariant [C10:no-actions-yet] calls("(*DB).writeJournal") == old(calls("(*DB).writeJournal")) && calls("(*DB).addSeq") == old(calls("(*DB).addSeq")) && calls("(*DB).unlockWrite") == old(calls("(*DB).unlockWrite"))
-//@   ensures [released-on-every-path] held(db.writeLockC) == old(held(db.writeLockC)) - 1
+//@   ensures [C09,C10:released-on-every-path] held(db.writeLockC) == old(held(db.writeLockC)) - 1
 //@   ensures [C10:every-merged-writer-acked-once] sent(db.writeAckC) - old(sent(db.writeAckC)) == sentv(db.writeMergedC, true) - old(sentv(db.writeMergedC, true))
 //@   ensures [C10:every-request-answered-once] recvd(db.writeMergeC) - old(recvd(db.writeMergeC)) == (sentv(db.writeMergedC, true) - old(sentv(db.writeMergedC, true))) + (sentv(db.writeMergedC, false) - old(sentv(db.writeMergedC, false)))
 //@   ensures [C10:one-release-or-handoff] calls("(*DB).unlockWrite") == old(calls("(*DB).unlockWrite")) + 1
@@ -314,12 +314,12 @@ package leveldb
 //@ spec func recHas(h int, rec int) bool = (h & (1 << rec)) != 0
 
 //@ func (*sessionRecord).has
-//@   props C04
+//@   props C01 C04 C08 C11
 //@   mode bv
 //@   ensures result == recHas(p.hasRec, rec)
 
 //@ func (*version).fillRecord
-//@   props C04
+//@   props C01 C04 C08 C11
 //@   mode bv
 //@   loop 1
 //@     invariant (r.hasRec & old(r.hasRec)) == old(r.hasRec) && r.seqNum == old(r.seqNum) && r.journalNum == old(r.journalNum)
@@ -329,7 +329,7 @@ package leveldb
 //@   ensures [keeps-numbers] r.seqNum == old(r.seqNum) && r.journalNum == old(r.journalNum)
 
 //@ func (*session).fillRecord
-//@   props C04
+//@   props C01 C04 C08 C11
 //@   mode bv
 //@   requires r != nil
 //@   loop 1
@@ -343,14 +343,14 @@ package leveldb
 //@   ensures [session-unchanged] s.stSeqNum == old(s.stSeqNum) && s.stJournalNum == old(s.stJournalNum)
 
 //@ func (*session).recordCommited
-//@   props C04
+//@   props C01 C04 C08 C11
 //@   mode bv
 //@   requires rec != nil
 //@   ensures [journal] s.stJournalNum == (recHas(rec.hasRec, recJournalNum) ? rec.journalNum : old(s.stJournalNum))
 //@   ensures [seq] s.stSeqNum == (recHas(rec.hasRec, recSeqNum) ? rec.seqNum : old(s.stSeqNum))
 
 //@ func (*session).flushManifest
-//@   props C04
+//@   props C01 C04 C08 C11
 //@   mode bv
 //@   requires rec != nil && s.manifest != nil
 //@   ensures [I5-seq] err == nil ==> s.stSeqNum == (old(recHas(rec.hasRec, recSeqNum)) ? old(rec.seqNum) : old(s.stSeqNum))
@@ -358,7 +358,7 @@ package leveldb
 //@   ensures [error-changes-nothing] err != nil ==> (s.stSeqNum == old(s.stSeqNum) && s.stJournalNum == old(s.stJournalNum))
 
 //@ func (*session).newManifest
-//@   props C04
+//@   props C01 C04 C08 C11
 //@   mode bv
 //@   ensures [I5-seq] err == nil ==> s.stSeqNum == ((old(rec) != nil && old(recHas(rec.hasRec, recSeqNum))) ? old(rec.seqNum) : old(s.stSeqNum))
 //@   ensures [I5-journal] err == nil ==> s.stJournalNum == ((old(rec) != nil && old(recHas(rec.hasRec, recJournalNum))) ? old(rec.journalNum) : old(s.stJournalNum))
@@ -369,3 +369,98 @@ package leveldb
 //@   requires r != nil
 //@   ensures [C01,C04,C11:I5-seq] (err == nil && old(recHas(r.hasRec, recSeqNum))) ==> s.stSeqNum == old(r.seqNum)
 //@   ensures [C01,C04,C11:I5-journal] (err == nil && old(recHas(r.hasRec, recJournalNum))) ==> s.stJournalNum == old(r.journalNum)
+
+// ---------------------------------------------------------------------------
+// Write ordering (C04): what must be durable before something refers to it. Orders are stated with call
+// counters at the call that must come second.
+
+//@ count storage.Storage.SetMeta
+//@ count storage.Storage.Remove
+//@ count storage.Syncer.Sync
+//@ count (*DB).compactionCommit
+//@ count (*session).recordCommited
+//@ count (*tWriter).finish
+
+// O1: a table file is complete (index, footer) and synced before a tFile value for it exists.
+//@ func (*tWriter).finish
+//@   props C04
+//@   at before call storage.Syncer.Sync#1
+//@     assert [C04:table-closed-before-sync] calls("(*Writer).Close") > old(calls("(*Writer).Close"))
+//@   ensures [C04:table-synced-before-use] err == nil ==> (old(w.t.noSync) || calls("storage.Syncer.Sync") > old(calls("storage.Syncer.Sync")))
+//@   ensures [C04:table-closed] err == nil ==> calls("(*Writer).Close") > old(calls("(*Writer).Close"))
+//@   ensures [C04:file-on-success] err == nil ==> f != nil
+
+// O2: a table enters a session record only after finish succeeded.
+//@ func (*tOps).createFrom
+//@   props C04 C08
+//@   ensures [C04:built-means-finished] err == nil ==> (f != nil && calls("(*tWriter).finish") > old(calls("(*tWriter).finish")))
+
+//@ func (*Transaction).flush
+//@   props C04 C11
+//@   at before call (*sessionRecord).addTableFile#1
+//@     assert [C04:finished-before-recorded] err == nil && t != nil
+
+// O3: CURRENT is switched only after the new manifest is flushed and synced; the old manifest is removed only
+// after CURRENT was switched; if CURRENT was not switched nothing of the session state changed.
+//@ func (*session).newManifest
+//@   props C04 C08
+//@   mode bv
+//@   at before call storage.Storage.SetMeta#1
+//@     assert [C04:manifest-durable-before-current] calls("(*Writer).Flush") > old(calls("(*Writer).Flush")) && ((s.o.Options != nil && s.o.Options.NoSync) || calls("storage.Syncer.Sync") > old(calls("storage.Syncer.Sync")))
+//@   at before call storage.Storage.Remove#1
+//@     assert [C04:current-switched-before-old-manifest-removed] err == nil && calls("storage.Storage.SetMeta") > old(calls("storage.Storage.SetMeta"))
+//@   ensures [C04,C08:no-switch-no-change] calls("storage.Storage.SetMeta") == old(calls("storage.Storage.SetMeta")) ==> (err != nil && s.manifest == old(s.manifest) && s.manifestWriter == old(s.manifestWriter) && s.manifestFd.Num == old(s.manifestFd.Num) && s.stSeqNum == old(s.stSeqNum) && s.stJournalNum == old(s.stJournalNum))
+
+// O4: the session state follows an appended record only after it is flushed and synced.
+//@ func (*session).flushManifest
+//@   props C04 C08
+//@   mode bv
+//@   at before call (*session).recordCommited#1
+//@     assert [C04:record-durable-before-committed] err == nil && calls("(*Writer).Flush") > old(calls("(*Writer).Flush")) && ((s.o.Options != nil && s.o.Options.NoSync) || calls("storage.Syncer.Sync") > old(calls("storage.Syncer.Sync")))
+
+// O5: a version is installed only by a commit that succeeded.
+//@ func (*session).commit
+//@   props C04 C08
+//@   mode bv
+//@   at before call (*session).setVersion#1
+//@     assert [C04,C08:install-only-on-success] err == nil
+//@   ensures [C08:failed-commit-keeps-version] err != nil ==> s.stVersion == old(s.stVersion)
+
+// O6: a memdb flush commits (journal number of the live journal, sequence number at freeze time) before the
+// frozen memdb and its journal are dropped.
+//@ func (*DB).memCompaction
+//@   props C04
+//@   mode bv
+//@   at before call (*DB).compactionCommit#1
+//@     assert [C04:flush-record-carries-numbers] recHas(rec.hasRec, recJournalNum) && recHas(rec.hasRec, recSeqNum) && rec.journalNum == db.journalFd.Num && rec.seqNum == db.frozenSeq
+//@   at before call (*DB).dropFrozenMem#2
+//@     assert [C04:commit-before-journal-removal] calls("(*DB).compactionCommit") > old(calls("(*DB).compactionCommit"))
+
+// O7: a write group is flushed (and synced when asked) to the journal before it is applied and acknowledged.
+//@ func (*DB).writeJournal
+//@   props C04
+//@   ensures [C04:flushed] result == nil ==> calls("(*Writer).Flush") > old(calls("(*Writer).Flush"))
+//@   ensures [C04:synced-when-asked] (result == nil && sync) ==> calls("storage.Syncer.Sync") > old(calls("storage.Syncer.Sync"))
+
+//@ func (*DB).writeLocked
+//@   props C04
+//@   at before call (*Batch).putMem#1
+//@     assert [C04:journal-before-memdb] calls("(*DB).writeJournal") == old(calls("(*DB).writeJournal")) + 1
+//@   at before call (*DB).unlockWrite#4
+//@     assert [C04:published-before-ack] calls("(*DB).addSeq") == old(calls("(*DB).addSeq")) + 1
+
+// O8: a transaction may record its sequence number in the manifest only when no frozen memdb is waiting to be
+// flushed (its journal records would be older than the recorded number and recovery would drop them).
+// The acknowledgement of a memdb-compaction command comes from another goroutine (mCompaction acknowledges
+// after memCompaction returned, which ends with dropFrozenMem): assumed, listed in the evidence.
+//@ func (*DB).compTriggerWait
+//@   props C04 C11
+//@   assumes [C04,C11:acked-memdb-compaction-dropped-the-frozen-memdb] (err == nil && compC == db.mcompCmdC) ==> db.frozenMem == nil
+
+//@ func (*DB).rotateMem
+//@   props C04 C11
+//@   ensures [C04,C11:waited-means-flushed] (err == nil && wait) ==> db.frozenMem == nil
+
+//@ func (*DB).OpenTransaction
+//@   props C04
+//@   ensures [C04,C11:no-frozen-memdb] ret1 == nil ==> db.frozenMem == nil
